@@ -294,10 +294,38 @@ impl Part for ViaPackets {
         let want = reference(*c);
         let codec = Codec::new(Mode::Uncompressed);
         // (type, frame length, offset of the identifier)
-        for (name, ty, len, off) in [("Slc", 62u8, 8usize, 4usize), ("Npl", 21, 76, 40), ("Res", 35, 84, 60)] {
+        // the identifier travels in three surroundings: (0) all other fields zero, (1) the neighbouring text fields (player /
+        // user / skin name, plate) hold car-like names such as "XRT_DEFAULT", (2) they repeat the identifier's own bytes.
+        // What the neighbours say must never change what the 4 identifier bytes mean.
+        const NAMES: [&str; 20] = ["XFG", "XRG", "XRT", "RB4", "FXO", "LX4", "LX6", "MRT", "UF1", "RAC", "FZ5", "FOX", "XFR", "UFR", "FO8", "FXR", "XRR", "FZR", "BF1", "FBM"];
+        let pick = (c[0] as usize + c[1] as usize * 3 + c[2] as usize * 7) % 20;
+        for (name, ty, len, off, ctx) in [
+            ("Slc", 62u8, 8usize, 4usize, 0u8),
+            ("Npl", 21, 76, 40, 0),
+            ("Npl", 21, 76, 40, 1),
+            ("Npl", 21, 76, 40, 2),
+            ("Res", 35, 84, 60, 0),
+            ("Res", 35, 84, 60, 1),
+            ("Res", 35, 84, 60, 2),
+        ] {
             let mut f = vec![0u8; len];
             f[0] = len as u8;
             f[1] = ty;
+            // text fields around the identifier: (offset, width)
+            let texts: &[(usize, usize)] = match name {
+                "Npl" => &[(8, 24), (32, 8), (44, 16)],
+                "Res" => &[(4, 24), (28, 24), (52, 8)],
+                _ => &[],
+            };
+            for (k, (o, w)) in texts.iter().enumerate() {
+                let text: Vec<u8> = match ctx {
+                    1 => format!("{}_{}", NAMES[(pick + k) % 20], ["DEFAULT", "x", "2"][k % 3]).into_bytes(),
+                    2 => c.iter().cloned().filter(|b| *b != 0).chain(*b"_A").collect(),
+                    _ => vec![],
+                };
+                let n = text.len().min(*w - 1);
+                f[*o..*o + n].copy_from_slice(&text[..n]);
+            }
             f[off..off + 4].copy_from_slice(c);
             if name == "Npl" {
                 for t in 60..64 {
@@ -344,8 +372,54 @@ impl Part for ViaPackets {
     }
 }
 
+
+/// the identifier read through a reader that delivers its bytes piecewise must decode exactly as from a slice
+pub struct Piecewise;
+impl Part for Piecewise {
+    type Case = [u8; 4];
+    fn name(&self) -> &'static str {
+        "piecewise-readers"
+    }
+    fn check(&self, b: &[u8; 4], ev: &mut Local) -> Result<(), Fail> {
+        use insim_core::binrw::BinRead;
+        use insim_core::vehicle::Vehicle;
+        let bytes = [b[0], b[1], b[2], b[3], 0xAA, 0xBB];
+        let whole = guard(|| {
+            let mut c = std::io::Cursor::new(&bytes[..]);
+            (Vehicle::read_le(&mut c).map(|t| format!("{t:?}")).map_err(|_| ()), c.position())
+        })
+        .map_err(|p| Fail::new("c13:panic", p))?;
+        for pattern in [&[1usize][..], &[2], &[3], &[3, 1], &[1, 3]] {
+            let got = guard(|| {
+                let mut t = Trickle::new(&bytes[..], pattern);
+                let r = Vehicle::read_le(&mut t).map(|t| format!("{t:?}")).map_err(|_| ());
+                (r, t.inner.position())
+            })
+            .map_err(|p| Fail::new("c13:panic", p))?;
+            ensure!(
+                got.0 == whole.0 && (got.0.is_err() || got.1 == whole.1),
+                "c13:depends-on-how-the-reader-delivers-bytes",
+                "identifier {:02x?}: from a slice {:?} (position {}), from a reader delivering {pattern:?} bytes per call {:?} (position {})",
+                b,
+                whole.0,
+                whole.1,
+                got.0,
+                got.1
+            );
+        }
+        ev.nontrivial(b);
+        Ok(())
+    }
+    fn to_json(&self, c: &[u8; 4]) -> Value {
+        json!({"bytes": hex(c)})
+    }
+    fn from_json(&self, v: &Value) -> Option<[u8; 4]> {
+        unhex(v.get("bytes")?.as_str()?)?.try_into().ok()
+    }
+}
+
 pub fn parts() -> Vec<Box<dyn DynPart>> {
-    vec![Box::new(Exhaustive), Box::new(Names), Box::new(ViaPackets)]
+    vec![Box::new(Exhaustive), Box::new(Names), Box::new(ViaPackets), Box::new(Piecewise)]
 }
 
 pub fn run(run: &mut Run) {
@@ -377,6 +451,7 @@ pub fn run(run: &mut Run) {
     cases.sort();
     cases.dedup();
     run.list(&Names, "builtin-names-and-neighbours", cases.clone());
+    run.list(&Piecewise, "piecewise-readers", cases.clone());
     run.list(&ViaPackets, "through-slc-npl-res-frames", cases);
     {
         use proptest::prelude::*;
